@@ -78,12 +78,14 @@ fn routing(r: &mut Report, thorough: bool) {
             }
             r.exec(1);
             for eth in [false, true] {
-                let syn = frame_between(a, b, SYN, 1000, &[], eth);
-                let synack = frame_between(b, a, SYN | ACK, 5000, &[], eth);
-                let req = frame_between(a, b, ACK | PSH, 1001, b"GET / HTTP/1.1\r\nHost: x\r\n\r\n", eth);
-                let resp = frame_between(b, a, ACK | PSH, 5001, b"HTTP/1.1 200 OK\r\n\r\n", eth);
-                let seg2 = frame_between(a, b, ACK, 2000, &[0x16, 3, 1, 0, 5, 1, 2, 3], eth);
-                let fin = frame_between(a, b, ACK | 1, 3000, &[], eth);
+                // sequence numbers chosen so that every byte of the field differs between the packets of one connection
+                // (the stream crosses 2^24 and 2^32): nothing but the 4-tuple may select the worker
+                let syn = frame_between(a, b, SYN, 0x00ff_fff0, &[], eth);
+                let synack = frame_between(b, a, SYN | ACK, 0xfeff_ffff, &[], eth);
+                let req = frame_between(a, b, ACK | PSH, 0x00ff_fff1, b"GET / HTTP/1.1\r\nHost: x\r\n\r\n", eth);
+                let resp = frame_between(b, a, ACK | PSH, 0xff00_0000, b"HTTP/1.1 200 OK\r\n\r\n", eth);
+                let seg2 = frame_between(a, b, ACK, 0x0100_0010, &[0x16, 3, 1, 0, 5, 1, 2, 3], eth);
+                let fin = frame_between(a, b, ACK | 1, 0xffff_fff0, &[], eth);
                 for &w in &workers {
                     r.transitions += 6;
                     let h: Vec<Option<usize>> = [&syn, &synack, &req, &resp, &seg2, &fin].iter().map(|f| index(Pool::Http, f, w)).collect();
